@@ -1005,10 +1005,13 @@ def run_agg(ctx, jax, jnp, C):
       levels = 2
     grid_kind = kind in ('uniform', 'arith')
     bound_hi = 30 if (grid_kind and rng.rand() < 0.5) else 15
+    # int32 example / token counts (jnp.int32 scalars) whose total exceeds 2**31 - 1 although every one fits; values stay of
+    # ordinary magnitude there (weight * value must remain a finite float32: 2e9 * 1e30 is not)
+    int32_weights = (not many) and K >= 2 and rng.rand() < 0.12
     # ---- clients
     leaf_classes = []
     for s in shapes:
-      c = 'normal' if identical else LEAF_CLASSES[rng.choice(len(LEAF_CLASSES), p=LEAF_WEIGHTS)]
+      c = 'normal' if (identical or int32_weights) else LEAF_CLASSES[rng.choice(len(LEAF_CLASSES), p=LEAF_WEIGHTS)]
       if c == 'ongrid' and is_dyadic_levels(levels):
         c = 'ongrid-dyadic'
       leaf_classes.append(c)
@@ -1041,9 +1044,9 @@ def run_agg(ctx, jax, jnp, C):
                  for _ in range(K)]
       if sum(weights) <= 0:
         weights[int(rng.randint(K))] = 1.0 + float(rng.rand())
-    int32_weights = (not many) and K >= 2 and rng.rand() < 0.12
+    if int32_weights and max(float(np.max(np.abs(a))) if a.size else 0.0 for fl in flat for a in fl) * 2.2e9 * K > 1e36:
+      int32_weights = False      # a size-1 leaf came out as a huge constant: weight * value would overflow float32
     if int32_weights:
-      # int32 example / token counts (jnp.int32 scalars) whose total exceeds 2**31 - 1 although every one fits
       weights = [float(int(rng.uniform(8e8, 2.1e9))) for _ in range(K)]
       ctx.count('class:int32-weights-total-above-2^31')
     wtyped = [jnp.asarray(int(w_), jnp.int32) if int32_weights else w_ for w_ in weights]
